@@ -227,7 +227,7 @@ impl System for LockStep {
             // a seed of cursor addressing and text only (the screen fill) is executed as one
             // call and compared once, with its last command - on an 80x24 screen comparing
             // after each of its ~50 commands would dominate the cost of every transition
-            let plain = cmds.len() > 1 && cmds.iter().all(|c| matches!(c, Cup(..) | Text(_)));
+            let plain = cmds.len() > 1 && cmds.iter().all(|c| matches!(c, Cup(..) | Text(_) | Sgr(_) | Ech(_)));
             if plain && cfg.limit.is_none() {
                 let (last, head) = cmds.split_last().unwrap();
                 let text: String = head.iter().map(|c| c.spell(SP7)).collect();
